@@ -12,11 +12,16 @@ type GCSConfig struct {
 	Progs [][]string `json:"programs"`
 }
 
-var GCSOps = []string{"Match:a", "Match:z", "MatchAny", "ZipMatchAny", "HashMatchAny", "Bytes", "NBytes", "NPBytes", "N", "P"}
+var GCSOps = []string{"Match:a", "Match:z", "MatchAny", "ZipMatchAny", "ZipMatchAny:miss", "MatchAny:miss1", "HashMatchAny", "HashMatchAny:miss", "Bytes", "NBytes", "NPBytes", "N", "P"}
 
 var gcsKey = [16]byte{1, 2, 3, 4, 5, 6, 7, 8, 9, 10, 11, 12, 13, 14, 15, 16}
-var gcsItems = [][]byte{[]byte("a"), []byte("b"), []byte("c")}
+var gcsItems = [][]byte{[]byte("a"), []byte("b"), []byte("c"), []byte("d"), []byte("e"), []byte("f")}
 var gcsQuery = [][]byte{[]byte("q1"), []byte("c"), []byte("q2")}
+
+// queries that differ in content and length from gcsQuery and match nothing: two threads running
+// different queries expose any scratch state shared between queries
+var gcsMiss = [][]byte{[]byte("n1"), []byte("n2"), []byte("n3"), []byte("n4"), []byte("n5")}
+var gcsMiss1 = [][]byte{[]byte("n6")}
 
 func gcsDo(f *gcs.Filter, op string) string {
 	switch op {
@@ -34,6 +39,15 @@ func gcsDo(f *gcs.Filter, op string) string {
 		return fmt.Sprint(r, err)
 	case "HashMatchAny":
 		r, err := f.HashMatchAny(gcsKey, gcsQuery)
+		return fmt.Sprint(r, err)
+	case "ZipMatchAny:miss":
+		r, err := f.ZipMatchAny(gcsKey, gcsMiss)
+		return fmt.Sprint(r, err)
+	case "MatchAny:miss1":
+		r, err := f.MatchAny(gcsKey, gcsMiss1)
+		return fmt.Sprint(r, err)
+	case "HashMatchAny:miss":
+		r, err := f.HashMatchAny(gcsKey, gcsMiss)
 		return fmt.Sprint(r, err)
 	case "Bytes":
 		b, err := f.Bytes()
